@@ -382,7 +382,8 @@ def time_limit(seconds: float = 20.0):
         raise ImplementationHang(f"no result after {seconds:g} s")
 
     old = signal.signal(signal.SIGALRM, on_alarm)
-    signal.setitimer(signal.ITIMER_REAL, seconds)
+    # (repeating: if the implementation swallows the exception in a broad `except`, it is raised again)
+    signal.setitimer(signal.ITIMER_REAL, seconds, seconds)
     try:
         yield
     finally:
